@@ -4,7 +4,7 @@ use std::collections::BTreeMap;
 
 use gecs::prelude::EntityAny;
 
-use crate::comps::kind_has_id;
+use crate::comps::{kind_has_drop, kind_has_id};
 use crate::engine::*;
 use crate::model::*;
 use crate::ops::*;
@@ -227,7 +227,7 @@ impl<W: WorldSpec> Engine<W> {
             Some(w) => w,
             None => return,
         };
-        let cells: Vec<(u8, u32)> = self.ms[wid].ents.values().flat_map(|r| r.cols.iter().map(|c| (c.kind, c.id))).filter(|(k, _)| *k != 6).collect();
+        let cells: Vec<(u8, u32)> = self.ms[wid].ents.values().flat_map(|r| r.cols.iter().map(|c| (c.kind, c.id))).filter(|(k, _)| kind_has_drop(*k)).collect();
         let n = cells.len() as u32;
         let panic_at = panic_at.map(|k| if n == 0 { 0 } else { k % (n + 1) });
         let before: [rt::KindCounters; rt::NKINDS] = rt::with(|r| r.counters);
@@ -315,7 +315,7 @@ impl<W: WorldSpec> Engine<W> {
             return;
         }
         let dst = targets[n as usize % targets.len()];
-        let old_cells: Vec<(u8, u32)> = self.ms[dst].ents.values().flat_map(|r| r.cols.iter().map(|c| (c.kind, c.id))).filter(|(k, _)| kind_has_id(*k)).collect();
+        let old_cells: Vec<(u8, u32)> = self.ms[dst].ents.values().flat_map(|r| r.cols.iter().map(|c| (c.kind, c.id))).filter(|(k, _)| kind_has_id(*k) && kind_has_drop(*k)).collect();
         rt::arm(None, None, None, true);
         let mut d = self.ws[dst].take().unwrap();
         let res = {
@@ -593,7 +593,7 @@ impl<W: WorldSpec> Engine<W> {
         }
         let wid = self.cur;
         let ai = a as usize % W::archs().len();
-        let cells: Vec<(u8, u32)> = self.ms[wid].ents.values().filter(|r| r.arch == ai).flat_map(|r| r.cols.iter().map(|c| (c.kind, c.id))).collect();
+        let cells: Vec<(u8, u32)> = self.ms[wid].ents.values().filter(|r| r.arch == ai).flat_map(|r| r.cols.iter().map(|c| (c.kind, c.id))).filter(|(k, _)| kind_has_drop(*k)).collect();
         rt::arm(None, None, None, true);
         let w = self.ws[wid].as_mut().unwrap();
         let res = catch(|| W::archs()[ai].replace_with_clone(w));
@@ -628,6 +628,22 @@ impl<W: WorldSpec> Engine<W> {
     }
 
     pub fn op_forge(&mut self, f: &Forge) {
+        if let Forge::Alien { n } = f {
+            if !self.cur_alive() {
+                return;
+            }
+            let list = alien_directs();
+            if list.is_empty() {
+                return;
+            }
+            let d = list[*n as usize % list.len()];
+            let wid = self.cur;
+            let ei = self.add_forged(HKind::Dir(d));
+            self.stats.inc("F7_forged_handle");
+            self.stats.inc("forge_alien_direct");
+            self.audit_entry(wid, ei, true);
+            return;
+        }
         if !self.cur_alive() {
             return;
         }
@@ -691,6 +707,7 @@ impl<W: WorldSpec> Engine<W> {
                 }
                 EntityAny::from_raw((((position & 0xFF_FFFF) << 8) | id as u32, generation)).ok().map(HKind::Ind)
             }
+            Forge::Alien { .. } => None,
             Forge::Direct { a, idx } => {
                 let ai = *a as usize % n;
                 let am = &self.ms[wid].archs[ai];
@@ -822,6 +839,9 @@ impl<W: WorldSpec> Engine<W> {
             v
         });
         for (k, id) in leaks {
+            if !kind_has_drop(k as u8) {
+                continue;
+            }
             if !self.leak_ok.contains(&(k as u8, id as u32)) {
                 vio("C04", "leak", format!("value kind={} id={} was never dropped", k, id));
                 return;
@@ -929,4 +949,43 @@ pub fn run_spec<W: WorldSpec>(spec: &RunSpec, opts: RunOpts) -> RunResult {
     }
     let (hash, violations, trace) = rt::with(|r| (r.hash, std::mem::take(&mut r.violations), r.trace.take()));
     RunResult { hash, stats, violations, findings, steps, state_hashes, trace, failed_at, yields, interleavings }
+}
+
+/// Direct handles minted in scratch worlds of all three default-feature world types (archetype
+/// ids 0, 1, 7, 8, 200, 255 / 9, 2 / 42), at dense indices 0..2 and archetype versions 1 and 2.
+/// Rebuilt at every use (no cross-run cache: value ids are allocated per run).
+pub fn alien_directs() -> Vec<gecs::prelude::EntityDirectAny> {
+    fn from_world<X: WorldSpec>(out: &mut Vec<gecs::prelude::EntityDirectAny>) {
+        let caps = vec![0usize; X::archs().len()];
+        let r = catch(|| {
+            let mut w = X::with_caps(&caps);
+            let mut got = Vec::new();
+            for (ai, d) in X::archs().iter().enumerate() {
+                let p = payloads_for::<X>(ai, 11);
+                let mut hs = Vec::new();
+                for _ in 0..3 {
+                    hs.push(d.create(&mut w, Lvl::Arch, &p));
+                }
+                for b in &hs {
+                    if let Some(dd) = d.to_direct(&w, Lvl::Arch, Key::T(any_from_bits(*b).unwrap())) {
+                        got.push(dd);
+                    }
+                }
+                d.destroy(&mut w, Lvl::Arch, Key::T(any_from_bits(hs[2]).unwrap()));
+                if let Some(dd) = d.to_direct(&w, Lvl::Arch, Key::T(any_from_bits(hs[0]).unwrap())) {
+                    got.push(dd);
+                }
+            }
+            drop(w);
+            got
+        });
+        if let Ok(g) = r {
+            out.extend(g);
+        }
+    }
+    let mut out = Vec::new();
+    from_world::<crate::worlds::wa::WA>(&mut out);
+    from_world::<crate::worlds::w16::W16>(&mut out);
+    from_world::<crate::worlds::wz::WZ>(&mut out);
+    out
 }
